@@ -46,7 +46,7 @@ def gen_float(rnd) -> str:
 def gen_str(rnd) -> str:
 	q = rnd.choice('"\'')
 	other = "'" if q == '"' else '"'
-	pieces = ['a', 'b', 'Z', '0', ' ', '12', '1.5', other, '\\n', '\\\\', '\\' + q, '\\t', '%', '{}']
+	pieces = ['a', 'b', 'Z', '0', ' ', '12', '1.5', other, '\\n', '\\\\', '\\' + q, '\\' + other, '\\\\\\' + q, '\\x41', '\\t', '%', '{}']
 	return q + ''.join(rnd.choice(pieces) for _ in range(rnd.randint(0, 4))) + q
 
 
